@@ -116,20 +116,20 @@ Fixpoint mtree_masses (t : mtree) : list R :=
    (cos beta, cos alpha, sin alpha) w.r.t. the node's axes (z, x); each daughter's own axes are
    z := its 3-momentum in the parent frame (NOT normalised), x := xnext.
    Output: pre-order list of (cos beta, cos alpha, sin alpha) of the first daughter. *)
-Fixpoint bwd_tree (z x : vec3) (t : mtree) : list (R * R * R) :=
+Fixpoint bwd_tree (f : vec4 -> vec4) (z x : vec3) (t : mtree) : list (R * R * R) :=
+  (* [f] = the boosts accumulated so far, applied lazily to the momenta stored in [t] *)
   match t with
   | MLeaf _ => []
   | MNode P t1 t2 =>
-      let t1' := mtree_map (rest_vector P) t1 in
-      let t2' := mtree_map (rest_vector P) t2 in
-      let z1 := vect (mmom t1') in
-      let z2 := vect (mmom t2') in
+      let g := fun p => rest_vector (f P) (f p) in
+      let z1 := vect (g (mmom t1)) in
+      let z2 := vect (g (mmom t2)) in
       let h1 := hel_extract z x z1 in
       let h2 := hel_extract z x z2 in
-      (cosb h1, cosa h1, sina h1) :: bwd_tree z1 (xnext h1) t1' ++ bwd_tree z2 (xnext h2) t2'
+      (cosb h1, cosa h1, sina h1) :: bwd_tree g z1 (xnext h1) t1 ++ bwd_tree g z2 (xnext h2) t2
   end.
 (* cal_angle_from_momentum defaults: base_z = (0,0,1), base_x = (1,0,0) *)
-Definition cal_angle (t : ftree) : list (R * R * R) := bwd_tree (V3 0 0 1) (V3 1 0 0) (infer t).
+Definition cal_angle (t : ftree) : list (R * R * R) := bwd_tree (fun p => p) (V3 0 0 1) (V3 1 0 0) (infer t).
 
 (* the helicity variables that went in: pre-order (cos theta, cos phi, sin phi) and masses *)
 Fixpoint dtree_angles (t : dtree) : list (R * R * R) :=
@@ -148,7 +148,8 @@ Fixpoint forget (t : mtree) : ftree :=
 
 (* admissible helicity variables.  [k] is the length of the z axis handed down by the extractor
    (1 at the top, the parent's break-up momentum below).  The eps conditions exclude the
-   _epsilon fallbacks of cross_unit and of the boost (gamma2) for the boosts that are applied. *)
+   _epsilon fallbacks of cross_unit and of the boost (gamma2: beta^2 = q^2/(m^2+q^2) > eps) for the
+   boosts that are applied. *)
 Fixpoint tree_ok (k : R) (t : dtree) : Prop :=
   match t with
   | DLeaf m => 0 <= m
@@ -156,7 +157,7 @@ Fixpoint tree_ok (k : R) (t : dtree) : Prop :=
       let q := rel_p m (dmass t1) (dmass t2) in
       dmass t1 + dmass t2 < m /\ -1 < c < 1 /\
       eps <= k /\ eps <= k * q * sqrt (1 - c * c) /\
-      (match t1 with DLeaf _ => True | _ => vel_ok (boost_vector (fwd_mom (dmass t1) q (V3 0 0 q))) end) /\
-      (match t2 with DLeaf _ => True | _ => vel_ok (boost_vector (fwd_mom (dmass t2) q (V3 0 0 q))) end) /\
+      (match t1 with DLeaf _ => True | _ => eps < q * q / (dmass t1 * dmass t1 + q * q) end) /\
+      (match t2 with DLeaf _ => True | _ => eps < q * q / (dmass t2 * dmass t2 + q * q) end) /\
       tree_ok q t1 /\ tree_ok q t2
   end.
